@@ -3,7 +3,7 @@
    and ExtrOcamlString (ascii -> char, string -> char list).  No Extract Constant.
    nat, N, positive stay the extracted inductive types. *)
 From Coq Require Extraction ExtrOcamlBasic ExtrOcamlString.
-From FV Require Import Scope Engine SplitLine Text Reader Detect Include One Expr.
+From FV Require Import Scope Engine SplitLine Text Reader Detect Include One Expr ReplaceMap.
 Extraction Language OCaml.
 Cd "../ocaml/extracted".
 
@@ -12,4 +12,5 @@ Separate Extraction Engine.program_new Engine.est0 Engine.shape Engine.mkTable E
   SplitLine.splitquote SplitLine.splitparen Reader.read_source Reader.rst0 Reader.next_item Reader.put_item
   Text.extract_label Text.extract_construct_name Detect.detect_free Include.aread Include.mkArdr
   One.fill One.oshape One.flattens One.mkOItem One.mkOBlock
-  Expr.parse Expr.std_spec Expr.render Expr.conforming Expr.defop_ok.
+  Expr.parse Expr.std_spec Expr.render Expr.conforming Expr.defop_ok
+  ReplaceMap.string_replace_map ReplaceMap.restore.
